@@ -67,6 +67,7 @@ class PlainPayload:
     exc: str | None
     exc_args: tuple
     raises_names: tuple
+    ret: str = "wrapped"
 
     def raises(self):
         return tuple(EXC[n] for n in self.raises_names)
@@ -83,6 +84,7 @@ def _visual_payload_class():
         exc: str | None = None
         exc_args: tuple = ()
         raises_names: tuple = ()
+        ret: str = "wrapped"
 
         def raises(self):
             return tuple(EXC[n] for n in self.raises_names)
@@ -110,10 +112,10 @@ def work(payload, *args, **kwargs):
         name = payload.name if isinstance(payload, Path) else Path(str(payload.path)).name
         p = _LEGACY[name]
         if p["behave"] == "ok":
-            return [p["value"], list(args), sorted(kwargs.items())]
+            return p["value"] if p.get("ret") == "raw" else [p["value"], list(args), sorted(kwargs.items())]
         raise EXC[p["exc"]](*p["exc_args"])
     if payload.behave == "ok":
-        return [payload.value, list(args), sorted(kwargs.items())]
+        return payload.value if getattr(payload, "ret", None) == "raw" else [payload.value, list(args), sorted(kwargs.items())]
     raise EXC[payload.exc](*payload.exc_args)
 
 
@@ -155,8 +157,10 @@ def gen_spec(seed: int, config: str | None = None) -> dict:
     visual = entry in ("parproc_visual", "visual_legacy")
     for k in range(n):
         p = {"key": k, "cls": "visual" if (visual or rng.random() < 0.3) else "plain", "behave": "ok",
-             "value": rng.choice([k * 7, f"v{k}", [k, "x"], {"k": k}, None, 0, "", [[]]]),
+             "value": rng.choice([k * 7, f"v{k}", [k, "x"], {"k": k}, None, 0, "", [[]], [], {}, False, 0.0]),
              "exc": None, "exc_args": [], "raises": []}
+        if rng.random() < 0.3:
+            p["ret"] = "raw"  # the function returns the value itself (falsy outcomes such as 0, '', [] included)
         if rng.random() < p_raise:
             p["behave"] = "raise"
             pool_ex = list(CAPTURABLE)
@@ -238,7 +242,7 @@ def is_captured(spec: dict, p: dict) -> bool:
 def expected(spec: dict, p: dict):
     pick = PICKABLE[spec["pickable"]] or (lambda x: x)
     if p["behave"] == "ok":
-        out = [p["value"], list(spec["extra_args"]), sorted(spec["extra_kwargs"].items())]
+        out = p["value"] if p.get("ret") == "raw" else [p["value"], list(spec["extra_args"]), sorted(spec["extra_kwargs"].items())]
         return canon(pick(out)), None
     return canon(pick(None)), [p["exc"] if False else EXC[p["exc"]].__name__, canon(tuple(p["exc_args"]))]
 
@@ -269,7 +273,7 @@ def build_payloads(spec: dict):
         path = Path(f"/sim/file{p['key']:02d}.txt")
         text = f"line {p['key']}\n// c\n\n"
         kw = dict(key=p["key"], behave=p["behave"], value=p["value"], exc=p["exc"],
-                  exc_args=tuple(p["exc_args"]), raises_names=tuple(p["raises"]))
+                  exc_args=tuple(p["exc_args"]), raises_names=tuple(p["raises"]), ret=p.get("ret", "wrapped"))
         if p["cls"] == "visual":
             out.append(VisPayload(path=path, payload=text, **kw))
         else:
@@ -598,6 +602,10 @@ def shrink_candidates(spec: dict):
         if p["value"] not in (0, None):
             s = copy.deepcopy(spec)
             s["payloads"][i]["value"] = 0
+            yield s
+        if p.get("ret") == "raw":
+            s = copy.deepcopy(spec)
+            s["payloads"][i].pop("ret")
             yield s
     for key, simple in (("entry", "parproc"), ("pool", "process"), ("pickle", False), ("pickable", "identity"),
                         ("extra_args", []), ("extra_kwargs", {}), ("summary", False), ("verbose", False)):
